@@ -221,6 +221,8 @@ fn main() {
             json!({"pool": pool.len(), "pairs": done})
         }
         "simp" => {
+            // --steps: hook H3, one event per rule application (mc/Trace_Simp.tla, rbegin / rstep / rend)
+            let steps = arg_flag(&args, "--steps");
             let mut counts = Default::default();
             let mut diagrams = 0usize;
             let stride: usize = arg_num(&args, "--stride", 1);
@@ -234,7 +236,11 @@ fn main() {
                 let mut idx = 0usize;
                 gens::enum_family(&f, |a| {
                     if idx % stride == offset {
-                        eng_simp::record_diagram(&a, &mut tr, &fns, &mut counts);
+                        if steps {
+                            eng_simp::record_steps(&a, &mut tr, &fns, idx);
+                        } else {
+                            eng_simp::record_diagram(&a, &mut tr, &fns, &mut counts);
+                        }
                         diagrams += 1;
                     }
                     idx += 1;
@@ -244,9 +250,13 @@ fn main() {
             if nrand > 0 {
                 let cfg = parse_rand(&arg_val(&args, "--rand").unwrap_or_default());
                 let mut r = gens::rng(seed);
-                for _ in 0..nrand {
+                for i in 0..nrand {
                     let a = gens::random_diagram(&mut r, &cfg);
-                    eng_simp::record_diagram(&a, &mut tr, &fns, &mut counts);
+                    if steps {
+                        eng_simp::record_steps(&a, &mut tr, &fns, i);
+                    } else {
+                        eng_simp::record_diagram(&a, &mut tr, &fns, &mut counts);
+                    }
                     diagrams += 1;
                 }
             }
